@@ -184,6 +184,7 @@ package component_definition
 //@ ensures [built] MetaOK(result) && fresh(result) && fresh(result.Base) && fresh(result.dependentSet) && RTop >= old(RTop)
 //@ ensures [value-is-raw] result.Raw == c && result.ProxyMeta == nil && len(result.Dependent) == 0
 //@ ensures [scanned] FieldsInv(result) && result.propertyGroup != nil && fresh(result.propertyGroup)
+//@ ensures [every-top-level-field-offered] implies(ite(result.Type.Kind() == 22, result.Type.Elem(), result.Type).Kind() == 25, forall(j, int, implies(0 <= j && j < RNumField(ite(result.Type.Kind() == 22, result.Type.Elem(), result.Type)), result.Offered[ite(result.Type.Kind() == 22, RElemVal(result.Value), result.Value)][j]), result.Offered[ite(result.Type.Kind() == 22, RElemVal(result.Value), result.Value)][j]))
 //@ ghost before call scanFields: ScanTarget = m
 //@ ghost after call scanFields: ScanTarget = t0
 
